@@ -674,6 +674,33 @@ def directed(res):
           out.append((f"C08:directed:{integ}-actlimited-saturated:{b[0][0]}", f"{integ}, {nm} actuator saturated ({variant}): {b[0][0]} differs from mujoco.mj_step by {b[0][1]:.3g} (bound {b[0][2]:.3g}) at step {s}", {"xml": xml, "integrator": integ, "qpos0": [0.3], "qvel0": [0.5], "act0": [float(np.float32(a0))], "ctrl0": [c0], "steps": nst, "fails": [list(x[:3]) for x in b]}))
         elif st == "ok":
           res.nontrivial(("directed-actlimited", integ, nm, variant))
+  # fluid medium x disable flags: the guard of implicit() (when is the implicit-in-velocity solve skipped?)
+  # must follow MuJoCo for every combination of ACTUATION / SPRING / DAMPER (fluid forces are dropped only
+  # when SPRING and DAMPER are both disabled)
+  FLUID_XML = (
+    '<mujoco><option density="1000" viscosity="0.8" gravity="0 0 -9.81" timestep="0.005"/><worldbody>'
+    '<body pos="0 0 1"><joint name="j0" type="hinge" axis="0 1 0" stiffness="2" damping="0.3"/><geom type="box" size=".05 .2 .02" pos=".2 0 0"/>'
+    '<body pos=".4 0 0"><joint name="j1" type="hinge" axis="1 0 0" damping="0.2"/><geom type="ellipsoid" size=".05 .1 .03" pos="0 .1 0" fluidshape="ellipsoid"/></body></body>'
+    '</worldbody><actuator><velocity joint="j0" kv="2"/></actuator></mujoco>'
+  )
+  DB = mujoco.mjtDisableBit
+  for integ in ("implicitfast", "implicit", "euler"):
+    for mask in range(8):
+      flags = (DB.mjDSBL_ACTUATION if mask & 1 else 0) | (DB.mjDSBL_SPRING if mask & 2 else 0) | (DB.mjDSBL_DAMPER if mask & 4 else 0)
+      # integrator=implicit with fluidshape=ellipsoid is C27's open finding (ellipsoid fluid derivative mirrored
+      # from the lower triangle): the fully implicit cases use the inertia-box fluid model only
+      fxml = FLUID_XML.replace(' fluidshape="ellipsoid"', "") if integ == "implicit" else FLUID_XML
+      m = mujoco.MjModel.from_xml_string(fxml)
+      m.opt.integrator = INTS[integ]
+      m.opt.disableflags |= int(flags)
+      d0 = {"qpos": np.array([0.3, -0.4]), "qvel": np.array([6.0, -8.0]), "act": np.zeros(0), "ctrl": np.array([0.5])}
+      st, s, b = lockstep(m, d0, 2)
+      res.count()
+      if st == "fail":
+        names = "+".join(n for n, bit in (("actuation", 1), ("spring", 2), ("damper", 4)) if mask & bit) or "none"
+        out.append((f"C08:directed:{integ}-fluid-disableflags:{names}", f"{integ} in a fluid medium with disabled [{names}]: {b[0][0]} differs from mujoco.mj_step by {b[0][1]:.3g} (bound {b[0][2]:.3g}) at step {s}", {"xml": fxml, "integrator": integ, "disableflags": int(flags), "qpos0": [0.3, -0.4], "qvel0": [6.0, -8.0], "ctrl0": [0.5], "steps": 2, "fails": [list(x[:3]) for x in b]}))
+      elif st == "ok":
+        res.nontrivial(("directed-fluid", integ, mask))
   # RK4 with a delayed control (time-dependent forward): regression case of the repaired finding
   # C08:rk4:stage-time-not-advanced; model-level counterpart: C08_rk4_time_dependent_example
   m = mujoco.MjModel.from_xml_string(RK_DELAY_XML)
@@ -816,6 +843,8 @@ def replay(res, path):
   m.opt.integrator = INTS[r["integrator"]]
   if r.get("eulerdamp_disabled"):
     m.opt.disableflags |= mujoco.mjtDisableBit.mjDSBL_EULERDAMP
+  if r.get("disableflags"):
+    m.opt.disableflags |= int(r["disableflags"])
   if "prefill_ctrl" in r:
     d = mujoco.MjData(m)
     for c in r["prefill_ctrl"]:
